@@ -186,11 +186,19 @@ func (h *Sources) Walk(pos int) {
 		h.hpos = 0
 	}
 
+	walking := h.hpos > -1
 	h.hpos += pos
 
 	switch {
 	case h.hpos < -1:
+		// Going down past the newest entry from a history
+		// line brings back the line that was being typed.
+		if walking {
+			h.restoreLineBuffer()
+		}
+
 		h.hpos = -1
+
 		return
 	case h.hpos == 0:
 		h.restoreLineBuffer()
